@@ -151,6 +151,9 @@ def run_case(case):
                 k_ = rng.random()
                 if fs.links_of(d, s):
                     continue
+                if not os.path.lexists(fs.path(d, s)):
+                    # renamed to .unrecoverable by the 'fix -e' of the layout: nothing left to change
+                    continue
                 if k_ < 0.25:
                     fs.write(d, s, A.gen_bytes(rng, len(fs.entries[d][s][1]), "rand"), keep_inode=True)
                 elif k_ < 0.45:
